@@ -63,7 +63,7 @@ def run(rep, tier, seed, proof_ok):
     rng = random.Random(seed)
     rep.rule = ("the real DBFSStore over an in-process fake of dbutils.fs: every documented commit type (and spelling) through dds.set_store x "
                 "operation sequences (keep of str / bytes / None / object results at paths with 1..3 segments, re-keep with changed "
-                "code, load) - checks: keep returns the plain value; 'full' leaves a byte-identical copy of each result plus a redirect "
+                "code, re-keep with the code reverted, load) - checks: keep returns the plain value; 'full' leaves a byte-identical copy of each result plus a redirect "
                 "record, 'links only' only the record, 'none' nothing; load works iff the record exists; and blobs whose metadata names "
                 "a legacy or current codec reference decode with the codec of that kind; distinct = distinct case")
     cases = []
@@ -80,6 +80,13 @@ def run(rep, tier, seed, proof_ok):
             p0, k0, _ = plan[0]
             steps.append({"keep": [p0, k0, "s1"]})
             plan[0] = (p0, k0, "s1")
+            if len(cases) % 2 == 0:
+                # ... and back: the path returns to a signature it was committed with before (same store object)
+                steps.append({"keep": [p0, k0, "s0"]})
+                plan[0] = (p0, k0, "s0")
+                p1, k1, _ = plan[1]
+                steps.append({"keep": [p1, k1, "s2"]})
+                steps.append({"keep": [p1, k1, "s0"]})
             for p, _, _ in plan:
                 steps.append({"load": p})
             steps.append({"listing": True})
